@@ -53,11 +53,11 @@ Theorem C17_close_releases_all : forall c h1 h2,
   let s := run c (h1 ++ SClose :: h2) st_init in
   k_led (K s) = ∅ /\ k_regs (K s) = ∅ /\ closed s = true.
 Proof. exact close_releases_all. Qed.
-(* names_clean is necessary: key symlink-added (watch filed under the raw, unclean link target) *)
-Theorem C17_close_needs_clean_names_refuted :
+(* the witness of the repaired defect (watch filed under the raw, unclean absolute link target: Close did not find it) *)
+Theorem C17_close_unclean_link_released :
   let s := run cfg_repo w_unclean_link_close st_init in
-  gone s = true /\ ledger_list s = [(1, "/T//x")] /\ fails "close-releases-all" cfg_repo w_unclean_link_close = true.
-Proof. exact close_needs_clean_names_refuted. Qed.
+  gone s = true /\ ledger_list s = [] /\ fails "close-releases-all" cfg_repo w_unclean_link_close = false.
+Proof. exact close_unclean_link_released. Qed.
 (* the three repaired defects: gone on cfg_repo, present on cfg_before_fix (what the seeded-defect test reverts to) *)
 Theorem C17_before_fix_refuted :
   (let s := run cfg_before_fix w_close st_init in gone s = true /\ ledger_list s = [(1, "f")] /\ fails "close-releases-all" cfg_before_fix w_close = true)
@@ -114,7 +114,7 @@ Print Assumptions C17_watch_end_closes_fd.
 Print Assumptions C17_watch_end_closes_fd_refuted.
 Print Assumptions C17_close_empties.
 Print Assumptions C17_close_releases_all.
-Print Assumptions C17_close_needs_clean_names_refuted.
+Print Assumptions C17_close_unclean_link_released.
 Print Assumptions C17_before_fix_refuted.
 Print Assumptions C17_remove_unlists.
 Print Assumptions C17_remove_semantics_refuted.
